@@ -46,7 +46,7 @@ def fault_lines(kind, cont):
     return ['\t' + op + ' \\', '\t  \\', '\t  ' + arg]
 
 
-def build(shape, kind, pos, cont, nonl=False, longnames=False):
+def build(shape, kind, pos, cont, nonl=False, longnames=False, mainname='main.asm', pad=0, inclen=0):
     """returns (files, expected) where expected = list of (includechain, file, line, constructs[(NAME, bodyline)], mult)"""
     files = {}
     counter = [0]
@@ -68,6 +68,8 @@ def build(shape, kind, pos, cont, nonl=False, longnames=False):
         n = counter[0]
         if k == 'INC':
             name = ('i%d.inc' if not longnames else 'include_file_with_a_long_name_%d.inc') % n
+            if inclen:
+                name = 'i' * (inclen - 5) + '%d.inc' % n
             files[name] = '\n'.join(inner) + ('' if nonl else '\n')        # nonl: the last line of the file has no line end
             return ['\tnop', '\tinclude "%s"' % name, '\tnop'], [(2, ('INC', name, ifaults))]
         if k == 'MAC':
@@ -84,8 +86,9 @@ def build(shape, kind, pos, cont, nonl=False, longnames=False):
     tail = ['\tnop', FAULTS[kind][0], '\tnop']       # a second fault behind the construct: line counting must have recovered
     if nonl:
         tail = tail[:2]                               # ... which is then the last, unterminated line of the main file
+    pre = ['\tnop'] * pad + pre                   # pad: pushes every position in the main file to a longer line number
     main = ['\tcpu 6502'] + pre + top + tail
-    files['main.asm'] = '\n'.join(main) + ('' if nonl else '\n')
+    files[mainname] = '\n'.join(main) + ('' if nonl else '\n')
     exps = []
 
     def walk(incchain, curfile, off, faults, cons, mult, first_line_in_file):
@@ -109,8 +112,8 @@ def build(shape, kind, pos, cont, nonl=False, longnames=False):
                     walk(incchain, curfile, 0, sub, cons + [line, name], m2, first_line_in_file)
                 else:
                     walk(incchain, curfile, 0, sub, [name], m2, line + off)
-    walk([], 'main.asm', 1 + len(pre), faults, [], 1, None)
-    exps.append(([], 'main.asm', 1 + len(pre) + len(top) + 2, [], 1))
+    walk([], mainname, 1 + len(pre), faults, [], 1, None)
+    exps.append(([], mainname, 1 + len(pre) + len(top) + 2, [], 1))
     return files, exps
 
 
@@ -203,6 +206,17 @@ def subspaces(tier):
                                     yield {'k': 'shape', 'shape': list(s), 'fault': kind, 'pos': 2, 'cont': 'none', 'opts': o, 'nonl': bool(nonl), 'long': bool(lg)}
     subs.append(('file-ends-and-long-include-names', fileends()))
 
+    def namelens():
+        # the position text is assembled in buffers sized from the file name and the digits of the line number: every name length
+        # 5..36 x line numbers of one, two and three digits, directly in the main file, in an include of the same name length, in a macro
+        for n in range(5, 37):
+            for pad in (0, 8, 100):
+                for s in ([], ['INC'], ['MAC'], ['INC', 'INC']):
+                    for o in ([], ['-gnuerrors']):
+                        yield {'k': 'shape', 'shape': s, 'fault': 'unknown', 'pos': 2, 'cont': 'none', 'opts': o,
+                               'main': 'm' * (n - 4) + '.asm', 'pad': pad, 'inclen': n}
+    subs.append(('name-lengths x line-number-digits', namelens()))
+
     def deep():
         # long nesting chains: the position text grows with the depth and has no fixed maximum
         for kindn in ('INC', 'MAC'):       # (repetitions multiply: two iterations per level)
@@ -245,7 +259,8 @@ def describe(case):
     if case['k'] == 'expect':
         return 'expect %s ; provoked %s' % (case['ann'], case['prov'])
     return '%s fault %s pos %s cont %s opts %s%s%s' % (shp(case['shape'], '>'), case.get('fault', 'undef'), case['pos'], case.get('cont'), case.get('opts'),
-                                                   ' (files end without newline)' if case.get('nonl') else '', ' (long include names)' if case.get('long') else '')
+                                                   ' (files end without newline)' if case.get('nonl') else '', ' (long include names)' if case.get('long') else '') + \
+        (' main %s, %d filler lines, include names of %d characters' % (case['main'], case['pad'], case['inclen']) if case.get('main') else '')
 
 
 def ev_multi(case):
@@ -285,12 +300,13 @@ def evaluate(case):
         files, exps = build(case['shape'], 'undef', case['pos'], 'none')
         opts = []
     else:
-        files, exps = build(case['shape'], case['fault'], case['pos'], case['cont'], case.get('nonl', False), case.get('long', False))
+        files, exps = build(case['shape'], case['fault'], case['pos'], case['cont'], case.get('nonl', False), case.get('long', False),
+                            case.get('main', 'main.asm'), case.get('pad', 0), case.get('inclen', 0))
         opts = case['opts']
     core.fresh()
     for n, t in files.items():
         core.put(n, t)
-    o = core.run('asl', ['-q'] + opts + ['main.asm'])
+    o = core.run('asl', ['-q'] + opts + [case.get('main', 'main.asm')])
     d = describe(case)
     ck = core.crashkind(o)
     if ck:
